@@ -94,7 +94,7 @@ class Fn:
     """translation context of one function"""
 
     def __init__(self, node, sigs, method=False, floats=False, numpy=(), graph=False, objects=(), coding=False, repair=False,
-                 itertools=(), score=False, collections=(), inplace=(), matrix=False, capacity=False, shuffle=False):
+                 itertools=(), score=False, collections=(), inplace=(), matrix=False, capacity=False, shuffle=False, monitor=False):
         self.node = node
         self.sigs = sigs                      # name -> (params, {param: default ast})
         self.method = method                  # a method: `self.x` is the variable "self.x"; attributes read become parameters
@@ -109,6 +109,7 @@ class Fn:
         self.score = score                    # target MiniPyS.v (combinations, union1d, unique, intersect1d, argmax, max, Counter ...)
         self.collections = set(collections)   # names imported from collections (Counter)
         self.inplace = set(inplace)           # parameters the function is documented to update in place and hands back
+        self.monitor = monitor                # target MiniPyE.v (the progress printer: datetime externals, %-formatting, print to "__out__")
         self.shuffle = shuffle                # target MiniPyD.v (a[:, j] = v, the row-shuffle statement, external random.seed)
         self.capacity = capacity              # target MiniPyC.v (floats, float arrays, median, the random stream, external log2 / pow)
         self.matrix = matrix                  # target MiniPyM.v (shape[1], min, set(list) | set(list), list(set) external, fancy stores)
@@ -164,6 +165,23 @@ class Fn:
 
     # ---------------------------------------------------------------- expressions
     def expr(self, e):
+        if self.monitor:
+            # datetime.now()
+            if self.is_now(e):
+                return "(ECall %s [])" % qs("__now__")
+            # (datetime.now() - t).total_seconds()
+            if isinstance(e, ast.Call) and isinstance(e.func, ast.Attribute) and e.func.attr == "total_seconds" and not e.args \
+                    and not e.keywords and isinstance(e.func.value, ast.BinOp) and isinstance(e.func.value.op, ast.Sub) \
+                    and self.is_now(e.func.value.left):
+                return "(ECall %s [%s])" % (qs("__elapsed__"), self.expr(e.func.value.right))
+            # "%04d:%02d:%02d" % (h, m, s)
+            if isinstance(e, ast.BinOp) and isinstance(e.op, ast.Mod) and isinstance(e.left, ast.Constant) \
+                    and e.left.value == "%04d:%02d:%02d" and isinstance(e.right, ast.Tuple) and len(e.right.elts) == 3:
+                return "(EB1 BFmtHMS %s)" % self.expr(e.right)
+            # a.replace(b, c)
+            if isinstance(e, ast.Call) and isinstance(e.func, ast.Attribute) and e.func.attr == "replace" and len(e.args) == 2 \
+                    and not e.keywords:
+                return "(EReplace %s %s %s)" % (self.expr(e.func.value), self.expr(e.args[0]), self.expr(e.args[1]))
         if self.capacity:
             if isinstance(e, ast.Constant) and isinstance(e.value, float):
                 if e.value != e.value or e.value in (float("inf"), float("-inf")):
@@ -250,7 +268,7 @@ class Fn:
                 second = ast.Compare(left=e.comparators[0], ops=[e.ops[1]], comparators=[e.comparators[1]])
                 return "(EAnd %s %s)" % (self.expr(first), self.expr(second))
             l, r = e.left, e.comparators[0]
-            if (self.floats or self.numpy) and len(e.ops) == 1:
+            if (self.floats or self.numpy or self.monitor) and len(e.ops) == 1:
                 if isinstance(e.ops[0], (ast.Is, ast.IsNot)) and isinstance(r, ast.Constant) and r.value is None:
                     t = "(EB1 BIsNone %s)" % self.expr(l)
                     return t if isinstance(e.ops[0], ast.Is) else "(ENot %s)" % t
@@ -527,6 +545,12 @@ class Fn:
             and "random" not in self.assigned and not e.args and len(e.keywords) == 1 and e.keywords[0].arg == "size" \
             and isinstance(e.keywords[0].value, ast.Tuple) and len(e.keywords[0].value.elts) == 1
 
+    def is_now(self, e):
+        """datetime.now() with the class imported from the datetime module"""
+        return isinstance(e, ast.Call) and isinstance(e.func, ast.Attribute) and e.func.attr == "now" and not e.args \
+            and not e.keywords and isinstance(e.func.value, ast.Name) and e.func.value.id == "datetime" \
+            and "datetime" not in self.assigned
+
     def is_set_of(self, e):
         """set(x) with the builtin set"""
         return isinstance(e, ast.Call) and isinstance(e.func, ast.Name) and e.func.id == "set" and "set" not in self.assigned \
@@ -600,6 +624,16 @@ class Fn:
         return acc
 
     def stmt(self, s):
+        if self.monitor and isinstance(s, ast.Expr) and isinstance(s.value, ast.Call) and isinstance(s.value.func, ast.Name) \
+                and s.value.func.id == "print" and "print" not in self.assigned:
+            v = s.value
+            kws = {k.arg: k.value for k in v.keywords}
+            if not v.args and not kws:
+                return "(SPrintOut (EStr [10]))"                                   # print(): a newline
+            if len(v.args) == 1 and set(kws) <= {"end", "flush"} and isinstance(kws.get("end"), ast.Constant) \
+                    and kws["end"].value == "" and isinstance(kws.get("flush", ast.Constant(value=True)), ast.Constant):
+                return "(SPrintOut %s)" % self.expr(v.args[0])
+            raise Refuse("print call")
         if self.shuffle and isinstance(s, ast.Expr) and isinstance(s.value, ast.Call) and isinstance(s.value.func, ast.Name) \
                 and s.value.func.id == "__shuffle_row__":
             return "(SShuffleRow %s %s)" % (qs(s.value.args[0].id), self.expr(s.value.args[1]))
@@ -1474,6 +1508,70 @@ def generate_shuffle(repo, out_path):
              "Definition shuffle_module : module :=\n %s.\n" % coq_list(["(%s, %s_def)" % (qs("create_random_shuffles"), "create_random_shuffles")])]
     open(out_path, "w").write("\n".join(parts))
     return SHUFFLE_FUNCS
+
+
+MONITOR_FUNCS = ["Monitor.__call__"]
+
+
+def generate_monitor(repo, out_path):
+    """Monitor.__call__ (dsw/operation.py) as a MiniPyE term.  Parameters: current_state, total_state, extra, then the attribute
+    self.last_time as it is before the call, then "__out__" (the list of strings printed so far).  Every exit of the method returns
+    the triple (None, printed strings, self.last_time after the call).  datetime.now() and the elapsed seconds are the external
+    functions "__now__" / "__elapsed__"."""
+    tree = ast.parse(open(os.path.join(repo, "dsw", "operation.py")).read())
+    imports = {}
+    for n in tree.body:
+        if isinstance(n, ast.ImportFrom):
+            for a in n.names:
+                if a.asname is not None:
+                    raise Refuse("import ... as")
+                imports.setdefault(n.module, set()).add(a.name)
+        elif isinstance(n, ast.Import):
+            raise Refuse("plain import at module level")
+    if "datetime" not in imports.get("datetime", set()):
+        raise Refuse("datetime is not imported from datetime")
+    classes = [n for n in tree.body if isinstance(n, ast.ClassDef) and n.name == "Monitor"]
+    if len(classes) != 1 or classes[0].decorator_list or classes[0].keywords:
+        raise Refuse("class Monitor")
+    cls = classes[0]
+    methods = {x.name: x for x in cls.body if isinstance(x, ast.FunctionDef)}
+    if set(methods) != {"__init__", "__call__"}:
+        raise Refuse("methods of Monitor: %s" % sorted(methods))
+    for x in cls.body:
+        if not isinstance(x, ast.FunctionDef) and not (isinstance(x, ast.Expr) and isinstance(x.value, ast.Constant)):
+            raise Refuse("class-level statement")
+    # __init__ only sets self.last_time = None
+    init_body = [st for st in methods["__init__"].body if not (isinstance(st, ast.Expr) and isinstance(st.value, ast.Constant))]
+    if len(init_body) != 1 or ast.dump(init_body[0]) != ast.dump(ast.parse("self.last_time = None").body[0]) \
+            or [a.arg for a in methods["__init__"].args.args] != ["self"]:
+        raise Refuse("Monitor.__init__")
+    call = methods["__call__"]
+    for d in call.args.defaults:
+        if not isinstance(d, ast.Constant):
+            raise Refuse("non-constant default")
+    for n in ast.walk(call):
+        if isinstance(n, ast.Name) and n.id in ("__out__",):
+            raise Refuse("reserved name")
+        if isinstance(n, ast.Return) and n.value is not None:
+            raise Refuse("return with a value")
+    f = Fn(call, {}, method=True, numpy=set(), graph=True, coding=True, repair=True, score=True, monitor=True)
+    if sorted(set(f.attrs_read + f.attrs_written)) != ["last_time"]:
+        raise Refuse("attributes of Monitor: %s" % sorted(set(f.attrs_read + f.attrs_written)))
+    f.assigned.add("__out__")
+    f.check_aliasing()
+    body = f.block(call.body)
+    ret = "(SReturn (ETuple [ENone; (EVar %s); (EVar %s)]))" % (qs("__out__"), qs("self.last_time"))
+    if body.count("(SReturn ENone)") != sum(1 for n in ast.walk(call) if isinstance(n, ast.Return)):
+        raise Refuse("return statements")
+    body = body.replace("(SReturn ENone)", ret)
+    params = f.params + ["self.last_time", "__out__"]
+    text = ("Definition monitor_call_def : fundef :=\n {| params := %s;\n    body :=\n (SSeq %s\n %s) |}.\n"
+            % (coq_list([qs(p) for p in params]), body, ret))
+    parts = ["(* GENERATED by harness/translate_minipy.py from %s/dsw/operation.py -- do not edit *)\n"
+             "From Coq Require Import PrimFloat.\nFrom DSW Require Import MiniPyE.\nOpen Scope Z_scope.\n" % repo, text,
+             "Definition monitor_module : module :=\n %s.\n" % coq_list(["(%s, monitor_call_def)" % qs("Monitor.__call__")])]
+    open(out_path, "w").write("\n".join(parts))
+    return MONITOR_FUNCS
 
 
 REPAIR_FUNCS = ["path_matching", "repair_dna"]
